@@ -115,6 +115,25 @@ ADDENDA4 = {
   "C19": " Round 4: karplus lags below two samples (tap on the current sample).",
   "C20": " Round 4: long_inputs (1000-12000 samples, windows to 200), unwrap_wide (jumps beyond 2**53, neighbours of half-step ties).",
 }
+
+# fifth seeding round (DESIGN 7.3)
+ADDENDA5 = {
+  "C01": " Round 5: list / array operands changed in place after the expression is built (mutated, mutated_trees); user container classes through broadcast functions.",
+  "C02": " Round 5: finite second operands asked for up to (never beyond) their length, in both operand orders.",
+  "C03": " Round 5: returned lists written to by the caller; deep (2600-6000 stacked in-place stages; new repaired defect: stacked skip).",
+  "C05": " Round 5: wide_coefficients (ints beyond 2**53, nearly cancelling exact coefficients, plain Fraction gains at signal level).",
+  "C06": " Round 5: non-zero zero values with a Stream a0; (Nf/C)*(C/Dg) products.",
+  "C07": " Round 5: plain numbers (every spelling of zero and one) as left operands of + - *.",
+  "C08": " Round 5: late_bound (function form, deque / dict / set / Stream changed between call and first pull).",
+  "C09": " Round 5: plain Fraction / big-int samples through overlap_add, reconstruction and stft (ola_plain).",
+  "C11": " Round 5: levinson_float (float lags scaled by 2^s up to |s| = 700 against the exact recursion within an a-priori bound).",
+  "C13": " Round 5: longcomb (delays 131-48000, alpha against e^(-delay/tau)).",
+  "C15": " Round 5: deletion by key tuple, stores the dictionary refuses.",
+  "C16": " Round 5: hub / Stream-subclass / nested-mixer events, object-valued (callable) control values compared by identity.",
+  "C17": " Round 5: audio as deque / list / tuple / integer-index Sequence / generator; the destructor of the closed manager.",
+  "C18": " Round 5: every 32-bit value of the header's rate field; unsliceable Sequence inputs for chunks.",
+  "C19": " Round 5: modcount_float (range claim on floats), sinusoid with a stream-valued phase.",
+}
 NOT_BUILT = "check not built yet in this session (planned in DESIGN.md section 3); no claim is made until it is"
 
 def main():
@@ -130,7 +149,7 @@ def main():
       "evidence_file": "/verif/evidence/%s.json" % pid,
       "replay_cmd_template": "./check %s --replay {path}" % pid,
       "engine": "pbt-runner",
-      "level_claimed": {"category": "exploration", "text": text + ADDENDA.get(pid, "") + ADDENDA4.get(pid, ""), "design_ref": "DESIGN.md section " + ref},
+      "level_claimed": {"category": "exploration", "text": text + ADDENDA.get(pid, "") + ADDENDA4.get(pid, "") + ADDENDA5.get(pid, ""), "design_ref": "DESIGN.md section " + ref},
       "level_note": note,
       "technique": tech,
     })
